@@ -186,6 +186,14 @@ func runC08(p *core.Prog, r *core.Report, tier string) {
 									signaller = signaller || (sleeps && signals)
 								}
 							}
+							// … or captured
+							if isMC {
+								for _, b := range mc.Bindings {
+									if sameCell(E, b, condV) {
+										signaller = signaller || (sleeps && signals)
+									}
+								}
+							}
 						}
 						if fn, ok := gg.Call.Value.(*ssa.Function); ok && fn == cl {
 							started = true
@@ -198,6 +206,21 @@ func runC08(p *core.Prog, r *core.Report, tier string) {
 					}
 				})
 				_ = started
+			}
+			// the same with the library's one-shot timer: time.AfterFunc(s.timeout, w.Signal)
+			for _, ac := range core.CallsNamed(E, "AfterFunc") {
+				c := ac.Common()
+				if callee := c.StaticCallee(); callee == nil || callee.Pkg == nil || callee.Pkg.Pkg.Path() != "time" || len(c.Args) != 2 {
+					continue
+				}
+				if !ds.D(c.Args[0]).HasFieldSuffix("timeout") {
+					continue
+				}
+				if mc, ok := c.Args[1].(*ssa.MakeClosure); ok && len(mc.Bindings) == 1 {
+					if fn, ok := mc.Fn.(*ssa.Function); ok && strings.Contains(fn.Synthetic, "bound method wrapper") && (strings.HasPrefix(fn.Name(), "Signal") || strings.HasPrefix(fn.Name(), "Broadcast")) && sameCell(E, mc.Bindings[0], condV) {
+						signaller = true
+					}
+				}
 			}
 			r.Check(signaller, "C08.c", base+"|timeout-signaller", p.Pos(waitCall.Pos()), "a goroutine sleeps s.timeout and then signals the waited condition", "no goroutine sleeps the configured timeout and then signals the condition variable the entry waits on (the entry can wait forever)")
 			// the worker gets the same cond
@@ -796,6 +819,35 @@ func runC08(p *core.Prog, r *core.Report, tier string) {
 // whose field is written once (its initialisation).
 func sameCell(fn *ssa.Function, a, b ssa.Value) bool {
 	if a == b {
+		return true
+	}
+	// a local that lives in a cell because a literal captures it, written once: every read of the cell, and the value
+	// that was stored, are the same thing
+	through := func(v ssa.Value) ssa.Value {
+		if l, ok := v.(*ssa.UnOp); ok && l.Op == token.MUL {
+			if al, ok := l.X.(*ssa.Alloc); ok {
+				if sv := singleStoreOf(l); sv != nil {
+					_ = al
+					return sv
+				}
+			}
+		}
+		if al, ok := v.(*ssa.Alloc); ok && al.Referrers() != nil {
+			var stored ssa.Value
+			n := 0
+			for _, ref := range *al.Referrers() {
+				if st, ok := ref.(*ssa.Store); ok && st.Addr == ssa.Value(al) {
+					stored = st.Val
+					n++
+				}
+			}
+			if n == 1 {
+				return stored
+			}
+		}
+		return v
+	}
+	if ta, tb := through(a), through(b); ta == tb {
 		return true
 	}
 	la, ok1 := a.(*ssa.UnOp)
